@@ -1,6 +1,6 @@
 SPECIFICATION Spec
 CONSTANTS MinN = 5  MaxN = 6  NameIdx = {1, 3, 4, 6, 7}  MaxKids = 3  MaxEdges = 9  MaxIso = 1  MaxExtraRoots = 1
-          RootPerm = FALSE  Topo = FALSE  Gen = TRUE
+          RootPerm = FALSE  Topo = FALSE  SkipTaken = TRUE  Gen = TRUE
 INVARIANT TypeOK
 INVARIANT Acyclic
 INVARIANT AcyclicFinal
